@@ -1,6 +1,7 @@
 package kafka
 
 import (
+	pfindcoordinator "github.com/segmentio/kafka-go/protocol/findcoordinator"
 	"context"
 	"errors"
 	"io"
@@ -180,7 +181,7 @@ func VH_C09_ReaderClose(n int) {
 
 // A Reader with a consumer group: Reader.Close returns only after the group was left - LeaveGroup for the current
 // member id was sent and answered - and nothing is sent to the coordinator afterwards.
-func VH_C09_GroupReaderClose() {
+func VH_C09_GroupReaderClose(scenario int) {
 	vhConcreteClock(true)
 	co := &vhCoordinator{}
 	co.joinResp = joinGroupResponse{GenerationID: 3, MemberID: "m1", LeaderID: "someone-else", GroupProtocol: "range"}
@@ -204,6 +205,27 @@ func VH_C09_GroupReaderClose() {
 	go r.run(cg)
 	vhSettle()
 	vhAssert(co.joins == 1, "reader-joined-the-group")
+	if scenario == 1 {
+		// a synchronous CommitMessages whose context ends while the OffsetCommit is in flight at a slow broker:
+		// the call returns its context error, the commit loop is not left waiting for somebody to take the result
+		co.commitGate = make(chan struct{})
+		ctx, cancel := context.WithCancel(context.Background())
+		var cerr error
+		cdone := false
+		go func() {
+			cerr = r.CommitMessages(ctx, Message{Topic: "t", Partition: 0, Offset: 41})
+			cdone = true
+		}()
+		vhSettle()
+		vhAssert(co.commitCalls == 1 && !cdone, "commit-is-in-flight")
+		cancel()
+		vhSettle()
+		vhAssert(cdone && errors.Is(cerr, context.Canceled), "cancelled-commit-returns-its-context-error")
+		close(co.commitGate)
+		co.commitGate = nil
+		vhSettle()
+		vhAssert(len(co.commits) == 1 && co.commits[0].offset == 42, "the-in-flight-commit-reached-the-coordinator")
+	}
 	closedCh := make(chan struct{})
 	go func() { r.Close(); close(closedCh) }()
 	<-closedCh
@@ -218,5 +240,71 @@ func VH_C09_GroupReaderClose() {
 	vhSettle()
 	vhSettle()
 	vhAssert(len(co.calls) == n, "nothing-is-sent-to-the-coordinator-after-close-returned")
+	for i := 1; i <= vhSpawned(); i++ {
+		vhAssert(vhCoroDone(i), "no-goroutine-of-the-reader-outlives-close")
+	}
 	vhReach("c09-group-reader-close")
+}
+
+// C09-H6 (level S): a Transport connection whose handshake completes after the call that asked for it has given up
+// and after the pool was closed (Transport.CloseIdleConnections, which Writer.Close calls): the connection is closed,
+// not parked in a pool nobody will ever empty, and no goroutine is left. late=0: the pool is still open when the
+// handshake completes - the connection is kept idle for the next call (and closed with the pool).
+func VH_C09_TransportLateConnect(late int) {
+	vhConcreteClock(true)
+	w := &vhW{}
+	w.i16(0)
+	w.i32(7)
+	w.str("h")
+	w.i32(9092)
+	f1 := vhApiVersionsFrame(1, []vhApiRange{{10, 0, 0}, {3, 0, 1}})
+	fc := &vhFakeConn{data: append(append([]byte{}, f1...), vhFrameOf(2, w.b)...)}
+	fc.gate, fc.gateAfter = make(chan struct{}), 0 // the broker is slow to answer the handshake
+	dials := 0
+	ready := make(event)
+	close(ready)
+	_, pcancel := context.WithCancel(context.Background())
+	p := &connPool{
+		dial: func(ctx context.Context, network, address string) (net.Conn, error) {
+			dials++
+			return fc, nil
+		},
+		dialTimeout: time.Minute, idleTimeout: time.Minute, clientID: "vh",
+		ready: ready, wake: make(chan event), conns: make(map[int32]*connGroup),
+		cancel: pcancel, refc: 1,
+	}
+	p.ctrl = p.newConnGroup(&networkAddress{network: "tcp", address: "bootstrap:9092"})
+	p.setState(connPoolState{})
+	ctx, cancel := context.WithCancel(context.Background())
+	var err error
+	done := false
+	go func() {
+		_, err = p.roundTrip(ctx, &pfindcoordinator.Request{Key: "A"})
+		done = true
+	}()
+	vhSettle()
+	vhAssert(dials == 1 && len(fc.written) > 0 && !done, "handshake-in-flight")
+	cancel()
+	vhSettle()
+	vhAssert(done && errors.Is(err, context.Canceled), "call-returns-its-context-error")
+	if late == 1 {
+		p.unref() // the pool is closed while the handshake is still in flight
+		vhSettle()
+	}
+	fc.release()
+	vhSettle()
+	vhSettle()
+	if late == 1 {
+		vhAssert(fc.closed, "connection-that-arrives-after-the-pool-was-closed-is-closed")
+	} else {
+		vhAssert(!fc.closed, "connection-kept-for-the-next-call")
+		p.unref()
+		vhSettle()
+		vhAssert(fc.closed, "idle-connection-closed-with-the-pool")
+	}
+	vhSettle()
+	for i := 1; i <= vhSpawned(); i++ {
+		vhAssert(vhCoroDone(i), "no-goroutine-of-the-transport-outlives-the-pool")
+	}
+	vhReach("c09-transport-late-connect")
 }
